@@ -250,6 +250,25 @@ def make_peers(frontend, burst):
     return peers
 
 
+def udp_datagram_size(dummy: bool) -> bool:
+    """the datagram front-ends must take in every request the stream front-ends take in: the real synchronous
+    ModbusUdpServer (socket creation stubbed) reads datagrams of at least the maximum Modbus/TCP ADU (7 + 253 bytes)"""
+    import socketserver
+    import pymodbus.server.sync as S
+    from pymodbus.datastore import ModbusServerContext
+    ctx = ModbusServerContext(slaves=SL.small_context(), single=True)
+    orig = socketserver.ThreadingUDPServer.__init__
+    socketserver.ThreadingUDPServer.__init__ = lambda self, *a, **k: None
+    try:
+        srv = S.ModbusUdpServer(ctx)
+    finally:
+        socketserver.ThreadingUDPServer.__init__ = orig
+    if srv.max_packet_size < 260:
+        explain("the synchronous UDP server reads at most %r bytes of a datagram; a request ADU can have 260", srv.max_packet_size)
+        return False
+    return True
+
+
 def make_iso(frontend):
     def iso(t: bytes, v: bytes, st: bytes) -> bool:
         assume(len(t) == 4 and len(v) == 4 and len(st) == 12)
@@ -315,6 +334,8 @@ def obligations(tier):
     for fr in ("ascii", "tcp"):
         out.append(Obl("idle-timeout.sync-tcp.%s" % fr, make_idle_timeout(fr), timeout=T, contracts=CONTRACTS[fr], lemmas=LEMMAS[fr],
                        bounds="synchronous stream handler, %s framer: recv() time-outs before the first request and between requests%s; values, tids, initial store symbolic" % (fr, " and a request split in two reads" if fr == "ascii" else "")))
+    out.append(Obl("config.sync-udp.datagram-size", udp_datagram_size, timeout=T, twin=False,
+                   bounds="real ModbusUdpServer object (socket creation stubbed): the size it passes to recvfrom covers a 260-byte ADU"))
     for fe in ("sync-udp", "asyncio-udp", "twisted-udp"):
         for burst in ((True,) if fe == "asyncio-udp" else (False,)) + ((False,) if fe == "asyncio-udp" else ()):
             out.append(Obl("peers.%s.%s" % (fe, "back-to-back" if burst else "spaced"), make_peers(fe, burst), timeout=T,
